@@ -30,6 +30,46 @@ func runC03(c *Ctx) {
 	c.ruleR07a("R03g cache-entries-immutable", 4, func(e *own.Effect) bool {
 		return e.Owner != nil && ssax.NamedIs(e.Owner, "parsley", "Result")
 	})
+	c.ruleR03h("R03h memoize-writes-only-the-cache")
+}
+
+// ruleR03h: the only memory a memoizing parser writes (itself, not through the parser it wraps) is the result cache.
+// Anything else it wrote into the context — the furthest error, call counters, user data — would make the
+// memoized grammar observably different from the plain one.
+func (c *Ctx) ruleR03h(rule string) {
+	c.R.Rule(rule, "apart from ResultCache.Save, a memoizing parser (and the helpers it calls, the wrapped parser excluded) writes no memory it did not allocate: no Context.SetError / RegisterCall / user data write of its own", 1)
+	a := c.Own()
+	for _, m := range c.memos() {
+		if !c.S.Parser[m.Fn] {
+			continue
+		}
+		fn := c.name(m.Fn)
+		bad := 0
+		for _, e := range a.Info[m.Fn].SortedEffects() {
+			if e.Root.K == own.RFresh || e.Root.K == own.RFreeVar || e.Root.K == own.RGlobal {
+				continue // captured/global state is C14's business (R14a/b); fresh memory is the parser's own
+			}
+			if e.In != nil && isResultCacheMethod(e.In, "Save") {
+				continue
+			}
+			viaSave := false
+			for _, ch := range e.Chain {
+				if strings.Contains(ch, "ResultCache).Save") {
+					viaSave = true
+				}
+			}
+			if viaSave {
+				continue
+			}
+			bad++
+			if bad <= 3 {
+				c.R.Violation(rule, fn+" writes "+e.Loc(), fn, c.P.InstrPos(e.Instr), "the memoizing parser itself writes "+a.Describe(e)+": with this parser wrapped in Memoize the context (e.g. the furthest recorded error or the call count) differs from the un-memoized grammar")
+			}
+		}
+		if bad == 0 {
+			c.R.Hold(rule, fn, "writes nothing but the result cache")
+		}
+	}
 }
 
 func (c *Ctx) ruleR03a(rule string) {
